@@ -9,6 +9,20 @@
 #include <fcntl.h>
 #include <sys/personality.h>
 
+/* --san-as C05|C06: run this harness's exploration with the sanitizers as the only oracle, on behalf of the memory-safety
+ * property of the server (C05, process 0) or of the client (C06, other processes); the harness's own oracle is muted. */
+static const char *hc_san_as;
+void xp_violation(const char *sig, const char *fmt, ...);
+static int hc_san_report(const char *sig, int proc, const char *harness)
+{
+	if (!hc_san_as) return 0;
+	if ((!strcmp(hc_san_as, "C05")) != (proc == 0)) return 1;
+	char s2[200];
+	snprintf(s2, sizeof s2, "%s:sanitizer:%s", hc_san_as, sig);
+	xp_violation(s2, "sanitizer report in the %s while %s explored its own alphabet (see the replay's letter sequence)", proc == 0 ? "server" : "client", harness);
+	return 1;
+}
+
 typedef struct hc_args {
 	const char *tier; int thorough; double budget_s; int workers; const char *replay; int verbose;
 	const char *extra[8]; int nextra;
@@ -35,6 +49,7 @@ static hc_args hc_parse(int argc, char **argv, const char *prop)
 		else if (!strcmp(argv[i], "--workers") && i + 1 < argc) a.workers = atoi(argv[++i]);
 		else if (!strcmp(argv[i], "--replay") && i + 1 < argc) a.replay = argv[++i];
 		else if (!strcmp(argv[i], "-v")) a.verbose = 1;
+		else if (!strcmp(argv[i], "--san-as") && i + 1 < argc) hc_san_as = argv[++i];
 		else if (!strcmp(argv[i], "--part") && i + 1 < argc) { extern const char *xp_part; xp_part = argv[++i]; }
 		else if (a.nextra < 8) a.extra[a.nextra++] = argv[i];
 	}
